@@ -277,7 +277,7 @@ var defectKinds = []string{
 	"omit-variable", "illformed-variable", "undeclared-type", "unbound-variable", "unknown-function-statement",
 	"unknown-function-origin", "bad-arity", "wrong-type-expression", "negative-amount", "mismatched-asset",
 	"bad-allotment-sum", "zero-denominator-portion", "insufficient-funds", "missing-metadata", "negative-balance",
-	"overdraft-without-flag", "invalid-send-all-source",
+	"overdraft-without-flag", "invalid-send-all-source", "origin-mentions-unbound-variable",
 }
 
 // ApplyDefect is exported for the C20 engine, which needs every kind of
@@ -417,6 +417,24 @@ func applyDefect(r *rand.Rand, c *gen.PI, first bool) (Defect, bool) {
 			return d, false
 		}
 		sl[r.IntN(len(sl))].set(gen.Var("nope"))
+		d.Allowed = []string{"unknown-name"}
+	case "origin-mentions-unbound-variable":
+		// an origin whose argument is its own variable, a variable declared later, or two
+		// origins that mention each other: at that point the name is not bound yet
+		switch r.IntN(3) {
+		case 0:
+			c.Prog.Vars = append(c.Prog.Vars, gen.VarDecl{Type: "monetary", Name: "zz_self", Fn: "balance", Args: []gen.Expr{*gen.Var("zz_self"), *gen.Asset("USD")}})
+		case 1:
+			c.Prog.Vars = append(c.Prog.Vars,
+				gen.VarDecl{Type: "account", Name: "zz_first", Fn: "meta", Args: []gen.Expr{*gen.Var("zz_second"), *gen.Str("k")}},
+				gen.VarDecl{Type: "account", Name: "zz_second", Fn: "meta", Args: []gen.Expr{*gen.Var("zz_first"), *gen.Str("k")}})
+		default:
+			c.Prog.Vars = append(c.Prog.Vars,
+				gen.VarDecl{Type: "string", Name: "zz_fwd", Fn: "meta", Args: []gen.Expr{*gen.Var("zz_later"), *gen.Str("k")}},
+				gen.VarDecl{Type: "account", Name: "zz_later"})
+			c.In.Vars["zz_later"] = "a"
+			d.Certain = false // an implementation may well resolve a forward reference: only a cycle must fail
+		}
 		d.Allowed = []string{"unknown-name"}
 	case "unknown-function-statement":
 		insertStmt(r, c, gen.Stmt{K: "call", Fn: core.Pick(r, []string{"frobnicate", "balance", "meta", "set_meta"}), Args: []gen.Expr{*gen.Acc("a"), *gen.Asset("USD")}})
